@@ -9,6 +9,8 @@ CONSTANTS
   MaxAdds = 4
   MaxEnds = 2
   AtomicAdd = FALSE
+  SplitGet = FALSE
+  RecheckOnStore = TRUE
   StaleTimers = FALSE
 VIEW View
 INVARIANTS TypeOK LatUnique PendingAgree TimerSane
